@@ -1394,9 +1394,15 @@ sf_command	(SNDFILE *sndfile, int command, void *data, int datasize)
 			{	psf->error = SFE_BAD_COMMAND_PARAM ;
 				return SF_FALSE ;
 				} ;
-			if (psf->cues == NULL && (psf->cues = psf_cues_dup (data, datasize)) == NULL)
-			{	psf->error = SFE_MALLOC_FAILED ;
-				return SF_FALSE ;
+			{	SF_CUES *new_cues ;
+
+				/* Setting the cues again replaces the earlier ones (it used to be ignored, yet reported as done). */
+				if ((new_cues = psf_cues_dup (data, datasize)) == NULL)
+				{	psf->error = SFE_MALLOC_FAILED ;
+					return SF_FALSE ;
+					} ;
+				free (psf->cues) ;
+				psf->cues = new_cues ;
 				} ;
 			return SF_TRUE ;
 
